@@ -374,15 +374,16 @@ Error BaseAssembler::embed_label_delta(const Label& label, const Label& base, si
     writer.emit_value_le(delta, data_size);
   }
   else {
+    // Allocate the expression first - a relocation entry cannot be taken back once it has been created.
+    Expression* exp = _code->_arena.new_oneshot<Expression>();
+    if (ASMJIT_UNLIKELY(!exp)) {
+      return report_error(make_error(Error::kOutOfMemory));
+    }
+
     RelocEntry* re;
     Error err = _code->new_reloc_entry(Out(re), RelocType::kExpression);
     if (ASMJIT_UNLIKELY(err != Error::kOk)) {
       return report_error(err);
-    }
-
-    Expression* exp = _code->_arena.new_oneshot<Expression>();
-    if (ASMJIT_UNLIKELY(!exp)) {
-      return report_error(make_error(Error::kOutOfMemory));
     }
 
     exp->reset();
